@@ -26,12 +26,12 @@
    arrays of the right sizes, y cleared (established by the symbolic phase, kept by every successful factorisation, independent
    of the values of K: C13_sparse_reusable).  Not covered: the state a FAILED factorisation (zero pivot) leaves.
    NOT proved here (see the report of the stage for what is compared instead):
-     * the absence of repeated row indices in a column of the stored matrix (nodup_cols) is a hypothesis of the theorems on
-       the assembly states (for KKT_FULL under an arbitrary ordering: of the UN-permuted matrix only, C13_sparse_solve_exact_full_perm);
+     * (nodup_cols of the stored matrix is no longer a hypothesis of the theorems on the assembly states: KKTSparseNodupProofs.v
+       derives it from the canonical-form predicates; KKT_FULL needs strictly increasing columns of P_utri, AT, GT: sorted_colsb);
      * iterative refinement. *)
 From PIQP Require Import Base CSC CSCProofs LDLSparse LinAlg KKTProofs LDLValuesFinalProofs KKTSparseFull KKTSparseFullProofs KKTSparseFullPerm KKTSparseFullPermProofs
   KKTSparseAll KKTSparseAllProofs KKTSparseEq KKTSparseIneq KKTSparseEqProofs KKTSparseIneqProofs
-  KKTSparseSolve KKTSparseSolveProofs KKTSparseSolveElimProofs KKTSparseSolvePermProofs KKTSparseRefactorProofs.
+  KKTSparseSolve KKTSparseSolveProofs KKTSparseSolveElimProofs KKTSparseSolvePermProofs KKTSparseRefactorProofs KKTSparseNodupProofs.
 Local Open Scope nat_scope.
 
 (* ===== KKT_FULL: solve is exact (any valid ordering) ===== *)
@@ -95,14 +95,17 @@ Print Assumptions C13_newton8_written_out.
 
 (* ===== on the assembly state: identity ordering, canonical form of Properties_C13_full.v ===== *)
 Theorem C13_sparse_solve_exact_full_fresh_form : forall (d : sdata) (c : scal) (k : skkt) (st0 st : ldl_i * ldl_v) (r : step8),
-  wf_sdata d -> upper_only (sd_P d) = true -> fresh_form d c k -> nodup_cols (fk_PKPt d k) ->
+  wf_sdata d -> upper_only (sd_P d) = true ->
+  sorted_colsb (sd_P d) = true -> sorted_colsb (sd_AT d) = true -> sorted_colsb (sd_GT d) = true ->
+  fresh_form d c k ->
   solve_ok d c -> rhs_ok d r ->
   kkt_symbolic (fk_PKPt d k) = Ok st0 -> full_factorize d k st0 = Ok (true, st) ->
   exists v, full_solve d k (mkord (seq 0 (sd_n d + sd_p d + sd_m d)) (fk_pinv k)) st r = Ok v /\ step_ok d v /\ newton8 d c v r /\
     full_multiply d k v = Ok (mkstep8 (t_x r) (t_y r) (t_z r) (head (sd_nlb d) (t_zlb r)) (head (sd_nub d) (t_zub r))
                                       (t_s r) (head (sd_nlb d) (t_slb r)) (head (sd_nub d) (t_sub r))).
 Proof.
-  intros d c k st0 st r Hwf Hup Hf Hnd Hso Hro E0 E1.
+  intros d c k st0 st r Hwf Hup SP SA SG Hf Hso Hro E0 E1.
+  pose proof (fresh_form_nodup_sorted d c k Hwf Hup SP SA SG Hf) as Hnd.
   destruct (fresh_form_denotes_solve d c k Hwf Hup Hf Hnd) as (Hden & Epi).
   assert (Esc : scal_of k = c) by (destruct Hf as (_ & E & _); exact E).
   unfold full_solve, full_multiply, full_factorize, full_view in *. cbn [sv_sc sv_K] in *. rewrite Esc, Epi.
@@ -136,7 +139,8 @@ Print Assumptions C13_sparse_solve_exact_full_perm_partial.
 Theorem C13_sparse_solve_exact_full_perm : forall (d : sdata) (c : scal) (perm : list nat) (kid kp : skkt)
     (st0 st : ldl_i * ldl_v) (r : step8),
   wf_sdata d -> upper_only (sd_P d) = true -> fresh_form d c kid -> perm_img d perm kid kp ->
-  perm_wf perm -> length perm = sd_n d + sd_p d + sd_m d -> nodup_cols (fk_PKPt d kid) ->
+  perm_wf perm -> length perm = sd_n d + sd_p d + sd_m d ->
+  sorted_colsb (sd_P d) = true -> sorted_colsb (sd_AT d) = true -> sorted_colsb (sd_GT d) = true ->
   solve_ok d c -> rhs_ok d r ->
   kkt_symbolic (fk_PKPt d kp) = Ok st0 -> full_factorize d kp st0 = Ok (true, st) ->
   exists o v, ordering_init perm = Ok o /\ oPinv o = fk_pinv kp /\
@@ -144,7 +148,8 @@ Theorem C13_sparse_solve_exact_full_perm : forall (d : sdata) (c : scal) (perm :
     full_multiply d kp v = Ok (mkstep8 (t_x r) (t_y r) (t_z r) (head (sd_nlb d) (t_zlb r)) (head (sd_nub d) (t_zub r))
                                        (t_s r) (head (sd_nlb d) (t_slb r)) (head (sd_nub d) (t_sub r))).
 Proof.
-  intros d c perm kid kp st0 st r Hwf Hup Hf Hp Hpw Lp Hnd Hso Hro E0 E1.
+  intros d c perm kid kp st0 st r Hwf Hup Hf Hp Hpw Lp SP SA SG Hso Hro E0 E1.
+  pose proof (fresh_form_nodup_sorted d c kid Hwf Hup SP SA SG Hf) as Hnd.
   destruct (full_perm_denotes_solve d c perm kid kp Hwf Hup Hf Hp Hpw Lp Hnd) as (o & Eo & EP & Epi & Hord & Hden).
   assert (Esc : scal_of kp = c).
   { destruct Hp as (o' & Cpos & a2c & _ & _ & _ & HS). destruct HS as (_ & _ & _ & _ & _ & _ & _ & _ & Es & _).
@@ -198,15 +203,16 @@ Print Assumptions C13_sparse_multiply_solve_id_eq.
 
 (* on the assembly state in canonical form (eqF of the assembly theorems; identity ordering) *)
 Theorem C13_sparse_solve_exact_eq_form : forall (d : sdata) (X : csc F) (c : scal) (k : ekkt) (st0 st : ldl_i * ldl_v) (r : step8),
-  elim_data_ok d (sd_GT d) -> eqF d X c k -> nodup_cols (sv_K (eq_view d k)) ->
+  elim_data_ok d (sd_GT d) -> eqF d X c k ->
   solve_ok d c -> sc_delta c <> 0%Qc -> rhs_ok d r ->
   kkt_symbolic (sv_K (eq_view d k)) = Ok st0 -> eq_factorize d k st0 = Ok (true, st) ->
   exists v, eq_solve d k (mkord (seq 0 (sd_n d + sd_m d)) (ek_pinv k)) st r = Ok v /\ step_ok d v /\ newton8 d c v r /\
     eq_multiply d k v = Ok (mkstep8 (t_x r) (t_y r) (t_z r) (head (sd_nlb d) (t_zlb r)) (head (sd_nub d) (t_zub r))
                                       (t_s r) (head (sd_nlb d) (t_slb r)) (head (sd_nub d) (t_sub r))).
 Proof.
-  intros d X c k st0 st r Hok Hf Hnd Hso Hd Hro E0 E1.
+  intros d X c k st0 st r Hok Hf Hso Hd Hro E0 E1.
   pose proof Hok as (Hwf & Hup & _). destruct (eq_form_denotes d Hok X c k Hf) as (W & U & _ & G).
+  pose proof (eqF_nodup d X c k Hok Hf) as Hnd.
   destruct (eqF_view d X c k Hf) as (Esc & Epi).
   unfold eq_solve, eq_multiply, eq_factorize, eq_view in *. cbn [sv_sc sv_K] in *. rewrite Esc, Epi.
   change (mkord (seq 0 (sd_n d + sd_m d)) (seq 0 (sd_n d + sd_m d))) with (id_ord (sd_n d + sd_m d)).
@@ -247,15 +253,16 @@ Print Assumptions C13_sparse_multiply_solve_id_ineq.
 
 (* on the assembly state in canonical form (ineqF of the assembly theorems; identity ordering) *)
 Theorem C13_sparse_solve_exact_ineq_form : forall (d : sdata) (X : csc F) (c : scal) (k : ekkt) (st0 st : ldl_i * ldl_v) (r : step8),
-  elim_data_ok d (sd_AT d) -> ineqF d X c k -> nodup_cols (sv_K (ineq_view d k)) ->
+  elim_data_ok d (sd_AT d) -> ineqF d X c k ->
   solve_ok d c -> rhs_ok d r ->
   kkt_symbolic (sv_K (ineq_view d k)) = Ok st0 -> ineq_factorize d k st0 = Ok (true, st) ->
   exists v, ineq_solve d k (mkord (seq 0 (sd_n d + sd_p d)) (ek_pinv k)) st r = Ok v /\ step_ok d v /\ newton8 d c v r /\
     ineq_multiply d k v = Ok (mkstep8 (t_x r) (t_y r) (t_z r) (head (sd_nlb d) (t_zlb r)) (head (sd_nub d) (t_zub r))
                                       (t_s r) (head (sd_nlb d) (t_slb r)) (head (sd_nub d) (t_sub r))).
 Proof.
-  intros d X c k st0 st r Hok Hf Hnd Hso Hro E0 E1.
+  intros d X c k st0 st r Hok Hf Hso Hro E0 E1.
   pose proof Hok as (Hwf & Hup & _). destruct (ineq_form_denotes d Hok X c k Hf) as (W & U & _ & G).
+  pose proof (ineqF_nodup d X c k Hok Hf) as Hnd.
   destruct (ineqF_view d X c k Hf) as (Esc & Epi).
   unfold ineq_solve, ineq_multiply, ineq_factorize, ineq_view in *. cbn [sv_sc sv_K] in *. rewrite Esc, Epi.
   change (mkord (seq 0 (sd_n d + sd_p d)) (seq 0 (sd_n d + sd_p d))) with (id_ord (sd_n d + sd_p d)).
@@ -296,14 +303,15 @@ Print Assumptions C13_sparse_multiply_solve_id_all.
 
 (* on the assembly state in canonical form (all_form of the assembly theorems; identity ordering) *)
 Theorem C13_sparse_solve_exact_all_form : forall (d : sdata) (c : scal) (k : akkt) (st0 st : ldl_i * ldl_v) (r : step8),
-  wf_sdata d /\ upper_only (sd_P d) = true -> all_form d c k -> nodup_cols (sv_K (all_view d k)) ->
+  wf_sdata d /\ upper_only (sd_P d) = true -> all_form d c k ->
   solve_ok d c -> sc_delta c <> 0%Qc -> rhs_ok d r ->
   kkt_symbolic (sv_K (all_view d k)) = Ok st0 -> all_factorize d k st0 = Ok (true, st) ->
   exists v, all_solve d k (mkord (seq 0 (sd_n d)) (ak_pinv k)) st r = Ok v /\ step_ok d v /\ newton8 d c v r /\
     all_multiply d k v = Ok (mkstep8 (t_x r) (t_y r) (t_z r) (head (sd_nlb d) (t_zlb r)) (head (sd_nub d) (t_zub r))
                                       (t_s r) (head (sd_nlb d) (t_slb r)) (head (sd_nub d) (t_sub r))).
 Proof.
-  intros d c k st0 st r Hok Hf Hnd Hso Hd Hro E0 E1.
+  intros d c k st0 st r Hok Hf Hso Hd Hro E0 E1.
+  pose proof (all_form_nodup d c k Hf) as Hnd.
   destruct Hok as (Hwf & Hup). destruct (all_form_denotes d Hwf Hup c k Hf) as (W & U & _ & G).
   destruct (all_form_view d c k Hf) as (Esc & Epi).
   unfold all_solve, all_multiply, all_factorize, all_view in *. cbn [sv_sc sv_K] in *. rewrite Esc, Epi.
@@ -392,6 +400,20 @@ Proof.
 Qed.
 Print Assumptions C13_sparse_solve_exact_all_refactor.
 
+(* ===== the assembled matrices repeat no row index inside a column (hypothesis of C14_ldl_sparse_correct), from the canonical forms ===== *)
+Theorem C13_assembled_nodup :
+  (forall (d : sdata) (c : scal) (k : skkt), wf_sdata d -> upper_only (sd_P d) = true ->
+     sorted_colsb (sd_P d) = true -> sorted_colsb (sd_AT d) = true -> sorted_colsb (sd_GT d) = true ->
+     fresh_form d c k -> nodup_cols (fk_PKPt d k)) /\
+  (forall (d : sdata) (X : csc F) (c : scal) (k : ekkt), elim_data_ok d (sd_GT d) -> eqF d X c k -> nodup_cols (sv_K (eq_view d k))) /\
+  (forall (d : sdata) (X : csc F) (c : scal) (k : ekkt), elim_data_ok d (sd_AT d) -> ineqF d X c k -> nodup_cols (sv_K (ineq_view d k))) /\
+  (forall (d : sdata) (c : scal) (k : akkt), all_form d c k -> nodup_cols (sv_K (all_view d k))) /\
+  (forall M : csc F, wf_csc M = true -> sorted_colsb M = true -> nodup_cols M).
+Proof.
+  split; [exact fresh_form_nodup_sorted|]. split; [exact eqF_nodup|]. split; [exact ineqF_nodup|]. split; [exact all_form_nodup|exact sorted_nodup].
+Qed.
+Print Assumptions C13_assembled_nodup.
+
 (* ===== non-vacuity: n = 3, p = 1, m = 2, one lower and two upper bounds, non-unit box scalings and scalings ===== *)
 Local Open Scope Qc_scope.
 Definition exs_q (a : Z) : F := qofZ a.
@@ -409,6 +431,8 @@ Definition exs_r : step8 := mkstep8 [exs_q 1; exs_q (-2); exs_q 3] [exs_q 4] [ex
 
 Example exs_wf : wf_sdata exs_d /\ upper_only (sd_P exs_d) = true.
 Proof. repeat split. Qed.
+Example exs_sorted : sorted_colsb (sd_P exs_d) && sorted_colsb (sd_AT exs_d) && sorted_colsb (sd_GT exs_d) = true.
+Proof. vm_compute. reflexivity. Qed.
 Example exs_solve_ok : solve_ok exs_d exs_c.
 Proof.
   unfold solve_ok. cbn [exs_d exs_c sd_n sd_m sd_nlb sd_nub sd_lbidx sd_ubidx sd_lbs sd_ubs sc_s sc_z_inv sc_s_lb sc_z_lb_inv sc_s_ub sc_z_ub_inv sc_delta length].
